@@ -99,7 +99,9 @@ EvAdvance == /\ E.t = "advance" /\ S' = S
 EvBundle == /\ E.t = "bundle" /\ S' = S
             /\ bad' = bad \cup Flag("C09_SameAcrossSegmentations", \A r \in 2..Len(E.runs) : E.runs[r] = E.runs[1])
                           \cup Flag("C09_Framing", E.units_answered)
-Next == /\ l <= Len(Tr) /\ (EvCmd \/ EvCb \/ EvReply \/ EvReply334 \/ EvHandoff \/ EvClosed \/ EvAdvance \/ EvBundle) /\ l' = l + 1 /\ UNCHANGED tid
+\* (bytes the stalling peer of the C14 driver trickles: what they amount to is ServerTimeouts' business, spec/Trace_ServerTimeoutsD.tla)
+EvRaw == E.t = "raw" /\ S' = S /\ bad' = bad
+Next == /\ l <= Len(Tr) /\ (EvCmd \/ EvCb \/ EvReply \/ EvReply334 \/ EvHandoff \/ EvClosed \/ EvAdvance \/ EvBundle \/ EvRaw) /\ l' = l + 1 /\ UNCHANGED tid
 Spec == Init /\ [][Next]_vars
 AtEnd == l = Len(Tr) + 1
 Watch == AtEnd => PrintT(<<"END", T.id, bad \cup Flag("C07_OneReply", Finished)>>)
